@@ -572,7 +572,13 @@ class MetadorGroup(MetadorNode):
         self._guard_path(source)
         self._guard_path(dest)
 
-        src_metadir = self[source].meta._base_dir
+        src_node = self[source]
+        dst_path = dest if dest[0] == "/" else f"{self.name.rstrip('/')}/{dest}"
+        if dst_path.startswith(src_node.name.rstrip("/") + "/"):
+            # HDF5 would detach the node (with everything below) from the file
+            raise ValueError(f"Cannot move {src_node.name} into itself!")
+
+        src_metadir = src_node.meta._base_dir
         # if actual data move fails, an exception will prevent the rest
         self.__wrapped__.move(source, dest)  # RAW
 
